@@ -43,7 +43,7 @@ package orchestrator
 // undo registered for the update re-applies the plugin AND the config the connector had
 // before it (the instance is updated in place, so both are captured beforehand).
 //verif:func (*ConnectorOrchestrator).Update(c, ctx, id, plugin, config) (conn, err)
-//verif:call[only-api-provisioned-and-stopped] ConnectorService.Update requires txnOpen() && succeeded("ConnectorService.Get") && result_of("ConnectorService.Get", 0).ProvisionedBy == ProvisionTypeAPI && succeeded("PipelineService.Get") && result_of("pipeline.(*Instance).GetStatus", 0) != StatusRunning && succeeded("(*ConnectorOrchestrator).Validate") && arg1 == id && arg2 == plugin && arg3 == config && oldPlugin == result_of("ConnectorService.Get", 0).Plugin && oldConfig == result_of("ConnectorService.Get", 0).Config
+//verif:call[only-api-provisioned-and-stopped] ConnectorService.Update requires txnOpen() && succeeded("ConnectorService.Get") && result_of("ConnectorService.Get", 0).ProvisionedBy == ProvisionTypeAPI && succeeded("PipelineService.Get") && result_of("pipeline.(*Instance).GetStatus", 0) != StatusRunning && succeeded("(*ConnectorOrchestrator).Validate") && arg1 == id && arg2 == plugin && arg3 == config
 //verif:call[commit-after-update-with-undo] Transaction.Commit requires succeeded("ConnectorService.Update") && count("rollback.(*R).Append") == 1
 //verif:call[skip-rollback-only-after-commit] rollback.(*R).Skip requires succeeded("Transaction.Commit")
 //verif:ensures[success-means-committed] err == nil ==> succeeded("Transaction.Commit") && called("rollback.(*R).Skip")
@@ -51,6 +51,7 @@ package orchestrator
 
 //verif:closure of (*ConnectorOrchestrator).Update calling ConnectorService.Update (err, c, ctx, id, oldPlugin, oldConfig) (rerr)
 //verif:call[undo-restores-previous-plugin-and-config] ConnectorService.Update requires arg1 == deref(id) && arg2 == deref(oldPlugin) && arg3 == deref(oldConfig)
+//verif:created[undo-captures-what-the-connector-had-before-the-update] requires succeeded("ConnectorService.Update") && deref(oldPlugin) == at_call("ConnectorService.Update", result_of("ConnectorService.Get", 0).Plugin) && deref(oldConfig) == at_call("ConnectorService.Update", result_of("ConnectorService.Get", 0).Config)
 
 // Delete: only API-provisioned connectors without processors, of a stopped pipeline; the
 // connector is deleted, then its reference is removed, each with its undo registered,
